@@ -4,11 +4,11 @@
 # usage: tools/try_mutants.sh C04 C05 ...      (no arguments: all seeded changes)
 cd /verif || exit 2
 wt=/tmp/rmk_mut_wt
-[ $# -eq 0 ] && set -- $(ls seeded | sed 's/[AB]$//' | sort -u)
+[ $# -eq 0 ] && set -- $(ls seeded | sed 's/[A-D]$//' | sort -u)
 git -C /repo worktree remove --force $wt 2>/dev/null
 git -C /repo worktree add -q --detach $wt HEAD || exit 2
 for pid in "$@"; do
-  for m in A B; do
+  for m in ${VARIANTS:-A B C D}; do
     f=/verif/seeded/$pid$m/patch.diff
     [ -f "$f" ] || continue
     git -C $wt checkout -q -- . 
